@@ -6,9 +6,11 @@ import (
 	"errors"
 	"fmt"
 	"net/netip"
+	"strings"
 	"testing"
 	"time"
 
+	"github.com/mdlayher/corerad/internal/config"
 	"github.com/mdlayher/corerad/internal/plugin"
 	"github.com/mdlayher/corerad/internal/system"
 	"github.com/mdlayher/corerad/internal/verifh"
@@ -86,6 +88,37 @@ func TestVerifC15(t *testing.T) {
 			Deprecated: dep, Epoch: time.Unix(0, epoch),
 			TimeNow: func() time.Time { reads++; return time.Unix(0, now+(reads-1)*tick) },
 		}
+		// a quarter of the cases take the plugin value from config.Parse, with the wildcard spelled "::/0", ""
+		// or by omitting the key (documented as equivalent): the stanza's preference, lifetime and deprecation
+		// must reach every expanded route whichever way it is spelled
+		spelling := "literal"
+		if r.Chance(25) {
+			spelling = verifh.Pick(r, []string{"::/0", "empty", "omitted"})
+			var b strings.Builder
+			b.WriteString("[[interfaces]]\nname = \"eth0\"\nadvertise = true\nsource_lla = false\n  [[interfaces.route]]\n")
+			switch spelling {
+			case "::/0":
+				b.WriteString("  prefix = \"::/0\"\n")
+			case "empty":
+				b.WriteString("  prefix = \"\"\n")
+			}
+			fmt.Fprintf(&b, "  preference = %q\n  lifetime = \"%dns\"\n  deprecated = %v\n", strings.ToLower(prf.String()), lt, dep)
+			cfg, err := config.Parse(strings.NewReader(b.String()), time.Unix(0, epoch))
+			if err != nil {
+				t.Fatalf("wildcard route stanza refused: %v\n%s", err, b.String())
+			}
+			var q *plugin.Route
+			for _, pl := range cfg.Interfaces[0].Plugins {
+				if rp, ok := pl.(*plugin.Route); ok {
+					q = rp
+				}
+			}
+			if q == nil {
+				t.Fatalf("no route plugin parsed from\n%s", b.String())
+			}
+			q.TimeNow = p.TimeNow
+			p = q
+		}
 		routesCoq := verifh.Some(wRoutesCoq(rs))
 		canonical := true
 		for _, rt := range rs {
@@ -106,7 +139,7 @@ func TestVerifC15(t *testing.T) {
 		ra := &ndp.RouterAdvertisement{}
 		err := p.Apply(ra)
 		c := verifh.Case{ID: id, Tags: append(tags, "source:"+mode, fmt.Sprintf("n:%d", min(len(rs), 8)),
-			"canonical:"+verifh.B(canonical), "deprecated:"+verifh.B(dep), fmt.Sprintf("clock-ticks-within-apply:%v", tick > 0))}
+			"canonical:"+verifh.B(canonical), "deprecated:"+verifh.B(dep), fmt.Sprintf("clock-ticks-within-apply:%v", tick > 0), "wildcard-spelling:"+spelling)}
 		if nr := len(pick15(ra.Options)); dep && tick > 0 && nr >= 2 {
 			c.Tags = append(c.Tags, "deprecated+ticking-clock+several-routes")
 			if rem := epoch + lt - now; rem > 0 && rem <= int64(nr)*tick {
